@@ -61,6 +61,9 @@ func q(s string) string { return fmt.Sprintf("%q", s) }
 
 var guarded = map[string]bool{"provisioners": true, "admins": true, "policyEngine": true}
 
+// methods of provisioner.Collection / administrator.Collection that modify the collection
+var mutatingMethods = map[string]bool{"Store": true, "Update": true, "Remove": true}
+
 type access struct {
 	Field   string
 	Write   bool
@@ -235,11 +238,26 @@ func tableLocks(repo string) string {
 				}
 				return true
 			})
+			// calls of the collections' mutating methods (`recv.provisioners.Store(…)` etc.) change the
+			// shared configuration in place: they count as writes of that field
+			mutated := map[*ast.SelectorExpr]bool{}
+			ast.Inspect(fd.Body, func(n ast.Node) bool {
+				if c, ok := n.(*ast.CallExpr); ok {
+					if s, ok := c.Fun.(*ast.SelectorExpr); ok && mutatingMethods[s.Sel.Name] {
+						if inner, ok := s.X.(*ast.SelectorExpr); ok {
+							if id, ok := inner.X.(*ast.Ident); ok && id.Name == recv && guarded[inner.Sel.Name] {
+								mutated[inner] = true
+							}
+						}
+					}
+				}
+				return true
+			})
 			ast.Inspect(fd.Body, func(n ast.Node) bool {
 				switch x := n.(type) {
 				case *ast.SelectorExpr:
 					if id, ok := x.X.(*ast.Ident); ok && id.Name == recv && guarded[x.Sel.Name] {
-						f.Accesses = append(f.Accesses, access{x.Sel.Name, writes[x], covered(x.Pos()), inRegion(x.Pos())})
+						f.Accesses = append(f.Accesses, access{x.Sel.Name, writes[x] || mutated[x], covered(x.Pos()), inRegion(x.Pos())})
 					}
 				case *ast.CallExpr:
 					if s, ok := x.Fun.(*ast.SelectorExpr); ok {
@@ -287,8 +305,81 @@ func tableLocks(repo string) string {
 		fmt.Fprintf(&b, "  ⟨%s, %s, %v, .%s, [%s], [%s]⟩%s\n", q(f.Name), q(f.File), f.Exported, strings.ToLower(f.Mode),
 			strings.Join(acc, ", "), strings.Join(cl, ", "), sep)
 	}
-	b.WriteString("]\n\nend Verif.Generated.Locks\n")
+	b.WriteString("]\n\n")
+	b.WriteString(crlSection(fset, files))
+	b.WriteString("\nend Verif.Generated.Locks\n")
 	return b.String()
+}
+
+// crlSection describes the critical section of GenerateCertificateRevocationList: whether
+// `a.crlMutex.Lock(); defer a.crlMutex.Unlock()` is taken as a top-level statement pair, and for each
+// call that reads or writes the CRL state whether it comes lexically after that pair.
+func crlSection(fset *token.FileSet, files map[string]*ast.File) string {
+	watched := map[string]bool{"GetCRL": true, "GetRevokedCertificates": true, "CreateCRL": true, "StoreCRL": true}
+	for _, fname := range sortedKeys(files) {
+		for _, d := range files[fname].Decls {
+			fd, ok := d.(*ast.FuncDecl)
+			if !ok || fd.Body == nil || fd.Name.Name != "GenerateCertificateRevocationList" {
+				continue
+			}
+			recv, ok := recvName(fd)
+			if !ok {
+				continue
+			}
+			isCrl := func(e ast.Expr) (string, bool) {
+				c, ok := e.(*ast.CallExpr)
+				if !ok {
+					return "", false
+				}
+				s, ok := c.Fun.(*ast.SelectorExpr)
+				if !ok {
+					return "", false
+				}
+				s2, ok := s.X.(*ast.SelectorExpr)
+				if !ok || s2.Sel.Name != "crlMutex" {
+					return "", false
+				}
+				id, ok := s2.X.(*ast.Ident)
+				return s.Sel.Name, ok && id.Name == recv
+			}
+			lockEnd := token.NoPos
+			n := 0
+			ast.Inspect(fd.Body, func(nd ast.Node) bool {
+				if e, ok := nd.(ast.Expr); ok {
+					if _, ok := isCrl(e); ok {
+						n++
+					}
+				}
+				return true
+			})
+			for i, st := range fd.Body.List {
+				es, ok := st.(*ast.ExprStmt)
+				if !ok {
+					continue
+				}
+				if op, ok := isCrl(es.X); ok && op == "Lock" && i+1 < len(fd.Body.List) {
+					if ds, ok := fd.Body.List[i+1].(*ast.DeferStmt); ok {
+						if uop, ok := isCrl(ds.Call); ok && uop == "Unlock" {
+							lockEnd = ds.End()
+						}
+					}
+				}
+			}
+			locked := lockEnd != token.NoPos && n == 2
+			var rows []string
+			ast.Inspect(fd.Body, func(nd ast.Node) bool {
+				if c, ok := nd.(*ast.CallExpr); ok {
+					if s, ok := c.Fun.(*ast.SelectorExpr); ok && watched[s.Sel.Name] {
+						rows = append(rows, fmt.Sprintf("(%s, %v)", q(s.Sel.Name), locked && c.Pos() > lockEnd))
+					}
+				}
+				return true
+			})
+			return fmt.Sprintf("/-- GenerateCertificateRevocationList: crlMutex taken at the top with a deferred unlock -/\ndef crlLockedAtTop : Bool := %v\n\n/-- calls that read or write the CRL state, and whether each is lexically inside that section -/\ndef crlCalls : List (String × Bool) := [%s]\n", locked, strings.Join(rows, ", "))
+		}
+	}
+	die("GenerateCertificateRevocationList not found")
+	return ""
 }
 
 // ---------------------------------------------------------------- PanicSites (C18)
